@@ -56,6 +56,15 @@ static long long vp_num(const char *s)
     }
     return neg ? -v : v;
 }
+char *strstr(const char *h, const char *n)       /* CBMC has no model: plain search, strings <= 8 / needles <= 4 characters */
+{
+    for (int i = 0; i < 8 && h[i]; i++) {
+        int j = 0;
+        while (j < 4 && n[j] && h[i + j] == n[j]) j++;
+        if (!n[j]) return (char *)h + i;
+    }
+    return NULL;
+}
 long strtol(const char *s, char **e, int b) { (void)e; (void)b; return (long)vp_num(s); }
 long long strtoll(const char *s, char **e, int b) { (void)e; (void)b; return vp_num(s); }
 #endif
